@@ -1,6 +1,11 @@
 /-
-C13 — the `fill_glyph` optimisation (`CollectFillGlyphPainter`, skrifa/src/color/traversal.rs) is
-observationally sound on the subtrees it is meant for, and NOT on every subtree it accepts.
+C13, BEYOND THE PROPERTY — statements about the model of the `fill_glyph` optimisation
+(`CollectFillGlyphPainter`, skrifa/src/color/traversal.rs).  Property C13 speaks about termination, bounded
+visits, errors for cyclic / too-deep graphs and LIFO nesting of the callbacks; WHAT is drawn is not part of
+it.  The theorems below are true facts about Model/Paint.lean that go further: the optimised stream is
+observationally equal to the un-optimised one on the stream shape the optimisation is meant for, and the
+two `example`s show that the equality does not extend to every stream the optimiser accepts.  Nothing here
+is checked as an oracle on the real code (the harness only counts the occurrences, informationally).
 
 Observation of a callback stream (`draws`): for every `fill(brush)` the current transformation (product of
 the open `push_transform`s, as a word of transform tags), the open glyph clips (each with the transformation
@@ -162,7 +167,7 @@ private theorem main (g : Gid) (S0 : List Scope) (pops : List Event) (hp : ∀ e
       simp only [List.cons_append, optCalls, optPrim, List.nil_append, draws]
       exact ih' o ts hs hg hbt
 
-/-- **`fill_glyph_optimisation_sound`**: let `s` be the primitive calls the child subtree of a `PaintGlyph`
+/-- **`fill_glyph_optimisation_sound`** (beyond the property: about what is drawn, not about nesting): let `s` be the primitive calls the child subtree of a `PaintGlyph`
 makes on its painter, of the shape the optimisation is designed for — transforms and fills, then only
 `pop_transform`s (a chain of transform paints over a solid / gradient, a `PaintColrLayers` of plain
 fills, …).  Then what a client sees from the OPTIMISED traversal (the `fill_glyph` calls the
@@ -189,8 +194,8 @@ theorem fill_only_stream_is_accepted (g : Gid) (s : List Event)
       simp only [optCalls, optPrim] <;> first | exact ih' _ h | skip
     · split <;> exact ih' _ (by simpa using h)
 
-/-- **The optimisation is NOT sound on every subtree it accepts** (finding
-`C13-fill-glyph-brush-transform-survives-pop`): `pop_transform` is ignored by the collecting painter, so a
+/-- **The equality does not extend to every stream the optimiser accepts** (an observation outside the
+property, reports/C13.md): `pop_transform` is ignored by the collecting painter, so a
 fill that comes after a popped transform is still forwarded with that transform.  `PaintGlyph(g,
 PaintColrLayers[PaintTranslate(t, solid a), solid b])`: accepted, but `b` is drawn under `t`. -/
 example : let s : List Event := [.pushT [1], .fill [0, 1, 16384], .popT, .fill [0, 2, 16384]]
